@@ -1063,6 +1063,10 @@ func evalClausesConcrete(run *PropRun, c0 *Ctx, g *ObGroup, ins []interface{}, r
 		}
 		en := en
 		name := fmt.Sprintf("%s/ensures#%s", base, lbl)
+		if ghostChannelClause(en.Src) {
+			skipped[name] = "the ghost channel log (select/send/recv records) is not observable in a replay"
+			continue
+		}
 		tryClause(name, "ensures", func() {
 			t := c.evalBool(env, en.Expr)
 			c.oblige(st, name, "ensures", t, en.Src, fn.Pos())
@@ -1071,6 +1075,14 @@ func evalClausesConcrete(run *PropRun, c0 *Ctx, g *ObGroup, ins []interface{}, r
 	c.curRet = ret
 	for i := range sp.Calls {
 		i := i
+		if ghostChannelClause(sp.Calls[i].Src) {
+			lbl := sp.Calls[i].Label
+			if lbl == "" {
+				lbl = fmt.Sprint(i + 1)
+			}
+			skipped[fmt.Sprintf("%s/calls#%s", base, lbl)] = "the ghost channel log (select/send/recv records) is not observable in a replay"
+			continue
+		}
 		tryClause("calls", "calls", func() {
 			c.callsAtReturn = true
 			c.checkCallClause(st, fr, sp.Calls[i], i)
@@ -1150,7 +1162,7 @@ func replayCustom(run *PropRun, g *ObGroup) ReplayOutcome {
 
 func replayConfirms(run *PropRun, g *ObGroup, path string) bool {
 	var ro ReplayOutcome
-	if g.Status != "failed" {
+	if g.Status != "failed" && !(g.Candidate && g.Model != nil && g.ReplayGo == "" && g.ReplayGen == nil) {
 		ro = ReplayOutcome{Detail: "no model: the obligation is undischarged, not refuted"}
 	} else if g.ReplayGo != "" || g.ReplayGen != nil {
 		if g.ReplayGen != nil {
@@ -1171,8 +1183,35 @@ func replayConfirms(run *PropRun, g *ObGroup, path string) bool {
 			}
 		}
 	}
+	if g.Status != "failed" && g.Candidate {
+		if ro.Confirmed {
+			ro.Detail = "candidate input from the quantifier-weakened query confirmed: " + ro.Detail
+		} else {
+			ro.Detail = "undischarged; candidate input from the quantifier-weakened query not confirmed: " + ro.Detail
+		}
+	}
 	fmt.Printf("  replay: %s\n", ro.Detail)
 	return ro.Confirmed
+}
+
+func ghostChannelClause(src string) bool {
+	for _, m := range []string{`"*sel`, `"*send`, `"*recv`, `"send:`, `"recv:`, `"close:`, `"*close`} {
+		if strings.Contains(src, m) {
+			return true
+		}
+	}
+	return false
+}
+
+// replayConfirmsUnknown: demonstration for an obligation that is undischarged (not refuted by a solver).
+func replayConfirmsUnknown(run *PropRun, g *ObGroup, path string) bool {
+	saved := g.Status
+	if g.ReplayGo != "" || g.ReplayGen != nil {
+		g.Status = "failed" // run the hand-written demonstration
+	}
+	ok := replayConfirms(run, g, path)
+	g.Status = saved
+	return ok
 }
 
 func cmdReplay(args []string) int {
